@@ -206,7 +206,7 @@ def floors(tier):
     cells += [('clip_bounds', b) for b in ('float/float', 'ndarray/ndarray', 'list/list', 'Fxp/Fxp', 'float/none', 'none/float')]
     cells += [('clip_bounds_other_format',)]
     cells += [('edge_format', f) for f in ('sum', 'cumsum', 'prod', 'cumprod', 'dot', 'clip', 'max', 'sort')]
-    cells += [('acc_significant_bits>24', 'dot'), ('acc_significant_bits>11', 'dot'), ('acc_significant_bits>11', 'sum')]
+    cells += [('acc_significant_bits>24', 'dot'), ('acc_significant_bits>11', 'dot'), ('acc_significant_bits>11', 'sum'), ('noncontiguous_operand',)]
     return cells
 
 
@@ -372,6 +372,34 @@ def run_case(case, ctx):
                 _try(lambda: x.trace(offset=off))
         _try(lambda: np.diagonal(x))
         _try(lambda: x.trace())
+    # the same functions on objects whose value buffer is not C-contiguous (a transpose, a Fortran-ordered input, a reversed view)
+    if size >= 2:
+        others = []
+        if len(shape) == 2:
+            others.append(_try(lambda: x.T))
+            others.append(_try(lambda: Fxp(np.asfortranarray(np.array(codes).reshape(shape)), s, w, nf, raw=True)))
+        others.append(_try(lambda: x[::-1]))
+        for o in others:
+            if o is None:
+                continue
+            ctx.floor_hit(('noncontiguous_operand',))
+            for f, m in ((np.sum, 'sum'), (np.cumsum, 'cumsum'), (np.max, 'max'), (np.min, 'min')):
+                _try(lambda: f(o))
+                _try(lambda: getattr(o, m)())
+                _try(lambda: f(o, axis=0))
+            if w * size <= 53:
+                _try(lambda: np.cumprod(o))
+                _try(lambda: o.cumprod())
+                _try(lambda: np.prod(o))
+            _try(lambda: np.sort(o))
+            _try(lambda: np.sort(o, axis=0))
+            _try(lambda: np.clip(o, amin, amax))
+            _try(lambda: np.transpose(o))
+            if len(o.shape) == 2:
+                _try(lambda: np.diagonal(o))
+                _try(lambda: np.trace(o))
+                _try(lambda: o.diagonal(offset=1) if o.shape[1] > 1 else None)
+            _try(lambda: np.dot(o, o.T) if len(o.shape) == 2 else np.dot(o, o))
     # dot / matmul with mixed signedness
     s2 = bool(rng.random() < 0.5)
     w2 = rng.randint(1, 12)
